@@ -28,7 +28,8 @@ def In(c, b, e=None, mapping=False, nopush=False, reverse=False, pre=False, sort
             'sorted': sort is not None, 'sortkey': sort or ''}
 def Try(b, hs, e=None): return {'t': 'try', 'b': b, 'hs': [{'names': list(n), 'b': hb} for n, hb in hs], 'he': e is not None, 'e': e or []}
 def TryF(b, f): return {'t': 'tryf', 'b': b, 'f': f}
-def Raise(cls, b): return {'t': 'raise', 'cls': cls, 'b': b}
+def Raise(cls, b, x=False): return {'t': 'raise', 'cls': cls, 'b': b, 'x': x}
+def exccls(name): return {'k': 'exccls', 'id': name}
 def Return(c): return {'t': 'return', 'c': c}
 def Comment(s): return {'t': 'comment', 's': s}
 
@@ -244,7 +245,7 @@ def pr(prog, sty='dtml'):
         elif t == 'tryf':
             out.append(o('try') + pr(n['b'], sty) + o('finally') + pr(n['f'], sty) + c('try'))
         elif t == 'raise':
-            out.append(o('raise', n['cls']) + pr(n['b'], sty) + c('raise'))
+            out.append(o('raise', ('expr="%s"' % n['cls']) if n.get('x') else n['cls']) + pr(n['b'], sty) + c('raise'))
         elif t == 'return':
             out.append(o('return', _ref(n['c'])))
         elif t == 'comment':
@@ -286,7 +287,11 @@ class DeepMultiError(MultiError):
     pass
 
 
-EXC.update({'MultiError': MultiError, 'DeepMultiError': DeepMultiError, 'UnsupportedOperation': io.UnsupportedOperation,
+class AppError(Exception):
+    """an application's own exception class, bound to a name in the namespace"""
+
+
+EXC.update({'AppError': AppError, 'MultiError': MultiError, 'DeepMultiError': DeepMultiError, 'UnsupportedOperation': io.UnsupportedOperation,
             'OSError': OSError})
 
 
@@ -345,6 +350,8 @@ def conc(v, sty='dtml'):
         return t
     if k == 'obj':
         return Obj(v['id'], {a: conc(x, sty) for a, x in v['a'].items()})
+    if k == 'exccls':
+        return EXC[v['id']]
     if k == 'cmap':
         return CMap(v['id'], {a: conc(x, sty) for a, x in v['a'].items()})
     if k == 'map':
